@@ -15,6 +15,20 @@ Fixpoint gen_cram_docs (m : mode) (ts : list gtest) : list block :=
   | t :: r => match r with [] => gen_cram_one m t | _ :: _ => gen_cram_one m t ++ [BBlank; BBlank] ++ gen_cram_docs m r end
   end.
 
+(* .. as the implementation writes them: with the guards of the generator (GenBlock.gen_cram_doc_g / gen_md_doc_g) *)
+Definition gen_cram_one_g (m : mode) (t : gtest) : list block := gen_cram_doc_g m (g_title t) (g_cmd t) (g_conts t) (g_lines t) (g_code t).
+Fixpoint gen_cram_docs_g (m : mode) (ts : list gtest) : list block :=
+  match ts with
+  | [] => []
+  | t :: r => match r with [] => gen_cram_one_g m t | _ :: _ => gen_cram_one_g m t ++ [BBlank; BBlank] ++ gen_cram_docs_g m r end
+  end.
+Definition gen_md_one_g (m : mode) (cfg : option text) (t : gtest) : list elem := gen_md_doc_g m cfg (g_title t) (g_cmd t) (g_conts t) (g_lines t) (g_code t).
+Fixpoint gen_md_docs_g (m : mode) (cfg : option text) (ts : list gtest) : list elem :=
+  match ts with
+  | [] => []
+  | t :: r => match r with [] => gen_md_one_g m cfg t | _ :: _ => gen_md_one_g m cfg t ++ [EBlank; EBlank] ++ gen_md_docs_g m cfg r end
+  end.
+
 (* what the document denotes: one test per element, at the line its `$` stands on *)
 Definition g_title_lines (t : gtest) : nat := match g_title t with Some _ => 1 | None => 0 end.
 Definition g_body_lines (t : gtest) : nat := length (g_lines t) + (if g_code t =? 0 then 0 else 1).
